@@ -60,6 +60,7 @@ type Obligation struct {
 }
 
 type Enc struct {
+	curCall       *ssa.CallCommon // the call being translated (callWith)
 	curCallee     *ssa.Function // static callee of the call being translated by defaultCall
 	loopFreshOnly []string      // set by loopModSet: components the loop writes only through memory allocated by the function itself
 	w             *World
@@ -420,6 +421,115 @@ func rpo(fn *ssa.Function) []*ssa.BasicBlock {
 
 func isBackEdge(u, v *ssa.BasicBlock) bool { return v.Dominates(u) }
 
+// localAccumulator: phi (at loop header hdr) is a slice that enters the loop as nil and whose
+// back-edge values are phi itself or append(phi, ...) chains; inside the loop these values are only
+// appended to, measured (len/cap), indexed, or merged by phis - never passed to a call, stored,
+// captured, resliced or converted. The backing store such a slice has at the loop head was then
+// allocated by an append of an earlier iteration and no reference to it exists outside this frame.
+func localAccumulator(phi *ssa.Phi, hdr *ssa.BasicBlock, body map[*ssa.BasicBlock]bool) bool {
+	if _, ok := phi.Type().Underlying().(*types.Slice); !ok {
+		return false
+	}
+	accum := map[ssa.Value]bool{phi: true}
+	var isAccum func(v ssa.Value, d int) bool
+	isAccum = func(v ssa.Value, d int) bool {
+		if accum[v] {
+			return true
+		}
+		if d > 8 {
+			return false
+		}
+		switch x := v.(type) {
+		case *ssa.Call:
+			if b, ok := x.Call.Value.(*ssa.Builtin); ok && b.Name() == "append" && len(x.Call.Args) == 2 && isAccum(x.Call.Args[0], d+1) {
+				accum[v] = true
+				return true
+			}
+		case *ssa.Phi:
+			if !body[x.Block()] {
+				return false
+			}
+			accum[v] = true
+			for _, ed := range x.Edges {
+				if !isAccum(ed, d+1) {
+					delete(accum, v)
+					return false
+				}
+			}
+			return true
+		}
+		return false
+	}
+	for i, p := range hdr.Preds {
+		ed := phi.Edges[i]
+		if isBackEdge(p, hdr) {
+			if !isAccum(ed, 0) {
+				return false
+			}
+		} else if c, ok := ed.(*ssa.Const); !ok || !c.IsNil() {
+			return false
+		}
+	}
+	for v := range accum {
+		refs := v.Referrers()
+		if refs == nil {
+			return false
+		}
+		for _, r := range *refs {
+			if !body[r.Block()] {
+				continue // after the loop: irrelevant for what holds at the loop head
+			}
+			switch u := r.(type) {
+			case *ssa.DebugRef:
+			case *ssa.Phi:
+				if !accum[u] {
+					return false
+				}
+			case *ssa.Call:
+				b, ok := u.Call.Value.(*ssa.Builtin)
+				if !ok {
+					return false
+				}
+				switch b.Name() {
+				case "len", "cap":
+				case "append":
+					if u.Call.Args[0] != v || !accum[u] || (len(u.Call.Args) > 1 && u.Call.Args[1] == v) {
+						return false
+					}
+				default:
+					return false
+				}
+			case *ssa.IndexAddr:
+				if u.X != v {
+					return false
+				}
+				irefs := u.Referrers()
+				if irefs == nil {
+					return false
+				}
+				for _, ir := range *irefs {
+					switch w := ir.(type) {
+					case *ssa.DebugRef:
+					case *ssa.UnOp:
+						if w.Op != token.MUL {
+							return false
+						}
+					case *ssa.Store:
+						if w.Addr != u {
+							return false
+						}
+					default:
+						return false
+					}
+				}
+			default:
+				return false
+			}
+		}
+	}
+	return true
+}
+
 // loopBody computes the natural loop of header h.
 func loopBody(h *ssa.BasicBlock) map[*ssa.BasicBlock]bool {
 	body := map[*ssa.BasicBlock]bool{h: true}
@@ -607,6 +717,21 @@ func (e *Enc) execFunc(fr *Frame, st *State, reach Term) ([]Val, *State, Term) {
 						e.sc.Assert(implies(rb, lo(nv.T)))
 					}
 					fr.vals[phi] = nv
+					if localAccumulator(phi, b, body) {
+						// a slice that starts nil and only grows by append inside this loop, never handed
+						// out: its backing store is an allocation of this function that is still private
+						r := e.sc.Define("accref_"+phi.Name(), "Int", "(sl_ref "+nv.T+")")
+						e.sc.Assert(implies(rb, or(eq(r, "0"), app("select", e.Get(cur, "$alloc"), r))))
+						if fr.top != nil && fr.top.entry != nil {
+							// ... and it did not exist when the function under verification was entered
+							e.sc.Assert(implies(rb, not(app("select", e.Get(fr.top.entry, "$alloc"), r))))
+						}
+						i := len(e.allocs)
+						e.allocs = append(e.allocs, allocInfo{ref: r, typ: phi.Type(), comps: []string{e.elemComp(phi.Type().Underlying().(*types.Slice).Elem())}})
+						e.allocIdx[r] = i
+						e.comps.Register(e.privComp(i), "Bool")
+						cur = e.Set(cur, e.privComp(i), "true")
+					}
 				}
 			}
 			// 3. assume invariants
@@ -658,7 +783,7 @@ func (e *Enc) execFunc(fr *Frame, st *State, reach Term) ([]Val, *State, Term) {
 				if fr == fr.top && fr.contract != nil {
 					e.returnAsserts(fr, x, vs, cur, rb)
 				}
-				if fr == fr.top && fr.contract != nil && rb != "false" && (e.w.Thorough || (!fr.contract.NoNilChecks && !fr.contract.WriteFrame)) {
+				if fr == fr.top && fr.contract != nil && rb != "false" && (e.w.Thorough || (!fr.contract.NoNilChecks && !fr.contract.WriteFrame && !strings.HasPrefix(fr.contract.File, "(synthesized"))) {
 					// consistency: the assumptions collected along the way to this return (callee
 					// contracts, trusted specs, axioms - including the quantified ones) must not
 					// contradict each other; a contradiction would make everything below it provable
